@@ -93,9 +93,26 @@ Fixpoint remove_sub (h s : str) : str :=
 
 (** "everything but the host is fine": the C01 statement holds once the stored
     host is deleted from the string form *)
+(** the string form with the host text deleted FROM ITS PLACE: the host-port part (after the
+    last '@') of the text between the first "//" and the next '/', '?' or '#' - not the first
+    occurrence of the host text anywhere (a host such as "%" or "a" also occurs elsewhere) *)
+Fixpoint split_slashes (s : str) : option (str * str) :=
+  match s with
+  | 47 :: 47 :: r => Some ([], r)
+  | c :: r => match split_slashes r with Some (a, b) => Some (c :: a, b) | None => None end
+  | [] => None
+  end.
+Definition remove_host_in_place (h s : str) : str :=
+  match split_slashes s with
+  | Some (pre, rest) =>
+      let '(auth, tail) := span_until is_authority_delim rest in
+      let '(ui, found, hp) := rpartition 64 auth in
+      pre ++ [47; 47] ++ (if found then ui ++ [64] else []) ++ remove_sub h hp ++ tail
+  | None => remove_sub h s
+  end.
 Definition c01_except_host (o : val) : bool :=
   match nthv i_str o, nthv i_raw_host o with
-  | WStr s, WStr (c :: h) => c01_core false (Some (remove_sub (c :: h) s)) o
+  | WStr s, WStr (c :: h) => c01_core false (Some (remove_host_in_place (c :: h) s)) o
   | _, _ => false
   end.
 
